@@ -270,9 +270,14 @@ ROUND2 = {
     "C07": ("out-of-equilibrium unit pairs with synthetic (dimensionless) collision files; "
             "P_eos admissibility of the traced equation of state",
             "Also 4/12 out-of-equilibrium models per run."),
+    "C03": ("velocity class between the template model's and the exact Jouguet velocity", ""),
+    "C15": ("a quarter of the cases with limited phase ranges (table floors 0.3-0.8 T_n) and a "
+            "share of strong transitions, so that vMin is compared under such ranges", ""),
     "C08": ("forced pure field exchanges in units with T_n >> 1 under a converged pressure "
             "iteration; end-state stationarity probe (real EOM.action) that keeps the known "
-            "start-dependence finding from absorbing other divergences",
+            "start-dependence finding from absorbing other divergences; out-of-equilibrium pairs "
+            "whose reference run keeps sibling model instances of the other labellings alive; "
+            "fixed-velocity probe of the real wallPressure judged under the same pinned field",
             ""),
     "C01": ("end-state stationarity probe (real EOM.action) discriminating the known "
             "start-dependence finding", ""),
@@ -281,7 +286,8 @@ ROUND2 = {
             "1e-5..8e-3 dT beyond a step, exactly on, just before)", ""),
     "C11": ("re-trace histories on the same FreeEnergy object (finer dT, wider / narrower / "
             "equal ranges, paranoid toggled) judged by the same oracles after every call; "
-            "range ends placed 0/+-1..3 ulp around a tracer step", ""),
+            "range ends placed 0/+-1..3 ulp around a tracer step; two-scale fold model with "
+            "hierarchical per-field variation scales; integer-typed starting guesses", ""),
     "C12": ("grid rescaled in place after the solver was constructed (position / momentum / "
             "Grid3Scales parameters, near-identity, sequences), judged against an independent "
             "reference system for the grid as it is now and against a solver built afterwards",
